@@ -42,6 +42,8 @@ def dispatch (line : String) : String :=
     | "helper" => Driver.helperCmd args
     | "genprior" => Driver.genPriorCmd args
     | "multiprior" => Driver.multiPriorCmd args
+    | "sites" => Driver.sitesCmd args
+    | "baselp" => Driver.baseLpCmd args
     | _ => "bad-op " ++ cmd
 
 partial def loop (h : IO.FS.Stream) (out : IO.FS.Stream) : IO Unit := do
